@@ -123,18 +123,20 @@ func TargetOpen(in *Input, rec *Rec) {
 		budget := walkBudget
 		onPath := map[*estargz.TOCEntry]bool{}
 		var all []*estargz.TOCEntry
-		var visit func(p string, e *estargz.TOCEntry)
-		visit = func(p string, e *estargz.TOCEntry) {
-			if budget <= 0 {
-				return
-			}
-			budget--
-			if onPath[e] {
-				rec.Fail("cyclic-tree:estargz", fmt.Sprintf("entry %q (type %s) is its own descendant at path %q", e.Name, e.Type, p))
-				return
-			}
+		type kid struct {
+			n string
+			e *estargz.TOCEntry
+		}
+		type frame struct {
+			p    string
+			e    *estargz.TOCEntry
+			kids []kid
+			i    int
+		}
+		// enter runs the per-entry API calls and returns the frame of e (explicit stack: the
+		// harness itself must not be the one that overflows on a deep tree)
+		enter := func(p string, e *estargz.TOCEntry) *frame {
 			onPath[e] = true
-			defer delete(onPath, e)
 			all = append(all, e)
 			byName := len(p) < 2048 // path based calls are quadratic on very deep trees
 			if byName {
@@ -180,27 +182,39 @@ func TargetOpen(in *Input, rec *Rec) {
 				r.OpenFile(p)
 				r.ChunkEntryForOffset(p, 0)
 			}
-			type kid struct {
-				n string
-				e *estargz.TOCEntry
-			}
-			var kids []kid
+			fr := &frame{p: p, e: e}
 			e.ForeachChild(func(base string, c *estargz.TOCEntry) bool {
-				kids = append(kids, kid{base, c})
+				fr.kids = append(fr.kids, kid{base, c})
 				return true
 			})
-			for _, k := range kids {
-				e.LookupChild(k.n)
-				cp := k.n
-				if p != "" && byName {
-					cp = p + "/" + k.n
-				} else if p != "" {
-					cp = p // too deep: stop extending the path (name based calls are off anyway)
-				}
-				visit(cp, k.e)
-			}
+			sort.Slice(fr.kids, func(i, j int) bool { return fr.kids[i].n < fr.kids[j].n })
+			return fr
 		}
-		visit("", root)
+		stack := []*frame{enter("", root)}
+		for len(stack) > 0 {
+			fr := stack[len(stack)-1]
+			if fr.i >= len(fr.kids) || budget <= 0 {
+				delete(onPath, fr.e)
+				stack = stack[:len(stack)-1]
+				continue
+			}
+			k := fr.kids[fr.i]
+			fr.i++
+			budget--
+			fr.e.LookupChild(k.n)
+			cp := fr.p
+			if len(fr.p) < 2048 {
+				cp = k.n
+				if fr.p != "" {
+					cp = fr.p + "/" + k.n
+				}
+			}
+			if onPath[k.e] {
+				rec.Fail("cyclic-tree:estargz", fmt.Sprintf("entry %q (type %s) is its own descendant at path %q", k.e.Name, k.e.Type, cp))
+				continue
+			}
+			stack = append(stack, enter(cp, k.e))
+		}
 		if v, err := r.Verifiers(); err == nil {
 			for _, e := range all {
 				v.Verifier(e)
@@ -231,67 +245,76 @@ func WalkMetadata(tag string, mr metadata.Reader, rec *Rec) (regs []uint32) {
 		id   uint32
 		mode os.FileMode
 	}
-	var visit func(id uint32, p string)
-	visit = func(id uint32, p string) {
-		if budget <= 0 {
-			return
-		}
-		budget--
-		if onPath[id] {
-			rec.Fail("cyclic-tree:"+tag, fmt.Sprintf("node %d is its own descendant at path %q", id, p))
-			return
-		}
-		onPath[id] = true
-		defer delete(onPath, id)
-		mr.GetAttr(id)
-		var kids []kid
-		mr.ForeachChild(id, func(name string, cid uint32, mode os.FileMode) bool {
-			kids = append(kids, kid{name, cid, mode})
-			return len(kids) < walkBudget
-		})
-		sort.Slice(kids, func(i, j int) bool { return kids[i].n < kids[j].n })
-		for _, k := range kids {
-			mr.GetChild(id, k.n)
-			attr, err := mr.GetAttr(k.id)
-			if err == nil && attr.Mode.IsRegular() && !seenReg[k.id] {
-				seenReg[k.id] = true
-				regs = append(regs, k.id)
-				mr.GetOffset(k.id)
-				if f, err := mr.OpenFile(k.id); err == nil {
-					var cos []int64
-					off := int64(0)
-					for j := 0; j < 32; j++ {
-						co, cs, _, ok := f.ChunkEntryForOffset(off)
-						if !ok {
-							break
-						}
-						cos = append(cos, co, co+cs)
-						if cs <= 0 {
-							break
-						}
-						off = co + cs
-					}
-					for _, o := range boundaryOffsets(attr.Size, 0, cos) {
-						f.ChunkEntryForOffset(o)
-					}
-					for _, o := range []int64{0, 1, attr.Size - 1, attr.Size, 5, -1} {
-						f.ReadAt(make([]byte, 8), o)
-					}
-					f.ReadAt(make([]byte, 4096), 0)
-				}
-			} else {
-				mr.OpenFile(k.id)
-			}
-			cp := p
-			if len(p) < 2048 {
-				cp = p + "/" + k.n
-			}
-			visit(k.id, cp)
-		}
-		mr.GetChild(id, "no-such-child")
-		mr.GetChild(id, "")
+	type frame struct {
+		id   uint32
+		p    string
+		kids []kid
+		i    int
 	}
-	visit(mr.RootID(), "")
+	enter := func(id uint32, p string) *frame {
+		onPath[id] = true
+		mr.GetAttr(id)
+		fr := &frame{id: id, p: p}
+		mr.ForeachChild(id, func(name string, cid uint32, mode os.FileMode) bool {
+			fr.kids = append(fr.kids, kid{name, cid, mode})
+			return len(fr.kids) < walkBudget
+		})
+		sort.Slice(fr.kids, func(i, j int) bool { return fr.kids[i].n < fr.kids[j].n })
+		mr.GetChild(id, "no-such-child")
+		return fr
+	}
+	stack := []*frame{enter(mr.RootID(), "")}
+	for len(stack) > 0 {
+		fr := stack[len(stack)-1]
+		if fr.i >= len(fr.kids) || budget <= 0 {
+			delete(onPath, fr.id)
+			stack = stack[:len(stack)-1]
+			continue
+		}
+		k := fr.kids[fr.i]
+		fr.i++
+		budget--
+		mr.GetChild(fr.id, k.n)
+		attr, err := mr.GetAttr(k.id)
+		if err == nil && attr.Mode.IsRegular() && !seenReg[k.id] {
+			seenReg[k.id] = true
+			regs = append(regs, k.id)
+			mr.GetOffset(k.id)
+			if f, err := mr.OpenFile(k.id); err == nil {
+				var cos []int64
+				off := int64(0)
+				for j := 0; j < 32; j++ {
+					co, cs, _, ok := f.ChunkEntryForOffset(off)
+					if !ok {
+						break
+					}
+					cos = append(cos, co, co+cs)
+					if cs <= 0 {
+						break
+					}
+					off = co + cs
+				}
+				for _, o := range boundaryOffsets(attr.Size, 0, cos) {
+					f.ChunkEntryForOffset(o)
+				}
+				for _, o := range []int64{0, 1, attr.Size - 1, attr.Size, 5, -1} {
+					f.ReadAt(make([]byte, 8), o)
+				}
+				f.ReadAt(make([]byte, 4096), 0)
+			}
+		} else {
+			mr.OpenFile(k.id)
+		}
+		cp := fr.p
+		if len(fr.p) < 2048 {
+			cp = fr.p + "/" + k.n
+		}
+		if onPath[k.id] {
+			rec.Fail("cyclic-tree:"+tag, fmt.Sprintf("node %d is its own descendant at path %q", k.id, cp))
+			continue
+		}
+		stack = append(stack, enter(k.id, cp))
+	}
 	mr.GetAttr(0)
 	mr.GetAttr(math.MaxUint32)
 	mr.GetOffset(math.MaxUint32)
@@ -332,32 +355,39 @@ func ExerciseReader(tag string, mr metadata.Reader, regs []uint32, rec *Rec, pas
 		return
 	}
 	rec.Try(tag+".cache", func() error { return vr.Cache() })
-	var rr reader.Reader
-	if r2, err := vr.VerifyTOC(mr.TOCDigest()); err == nil {
-		rr = r2
-	} else {
-		rr = vr.SkipVerify()
-	}
 	if len(regs) > 40 {
 		regs = regs[:40]
 	}
-	rec.Try(tag+".read", func() error {
-		var last error
-		for _, id := range regs {
-			ra, err := rr.OpenFile(id)
-			if err != nil {
-				last = err
-				continue
-			}
-			attr, _ := mr.GetAttr(id)
-			for _, lo := range readPlan(attr.Size) {
-				if _, err := ra.ReadAt(make([]byte, lo[0]), lo[1]); err != nil {
+	// both service modes: verification disabled (config) and TOC-verified
+	readers := map[string]reader.Reader{".read": vr.SkipVerify()}
+	if vr2, err := reader.NewReader(mr, cache.NewMemoryCache(), digest.FromString("layer")); err == nil {
+		if r2, err := vr2.VerifyTOC(mr.TOCDigest()); err == nil {
+			readers[".vread"] = r2
+		}
+	}
+	for _, sfx := range []string{".read", ".vread"} {
+		rr, ok := readers[sfx]
+		if !ok {
+			continue
+		}
+		rec.Try(tag+sfx, func() error {
+			var last error
+			for _, id := range regs {
+				ra, err := rr.OpenFile(id)
+				if err != nil {
 					last = err
+					continue
+				}
+				attr, _ := mr.GetAttr(id)
+				for _, lo := range readPlan(attr.Size) {
+					if _, err := ra.ReadAt(make([]byte, lo[0]), lo[1]); err != nil {
+						last = err
+					}
 				}
 			}
-		}
-		return last
-	})
+			return last
+		})
+	}
 	if passDir == "" {
 		return
 	}
